@@ -8,9 +8,12 @@ import sys
 import time
 
 VERIF = os.path.dirname(os.path.dirname(os.path.abspath(__file__)))
-EVID = os.path.join(VERIF, 'evidence')
-REPLAYS = os.path.join(VERIF, 'replays')
-WORK = os.path.join(VERIF, 'work')
+# development only (seeded-change campaigns run several checks side by side against scratch worktrees): VERIF_OUT moves
+# everything a run writes (evidence, replays, scratch) elsewhere; the registered commands never set it
+OUT = os.environ.get('VERIF_OUT') or VERIF
+EVID = os.path.join(OUT, 'evidence')
+REPLAYS = os.path.join(OUT, 'replays')
+WORK = os.path.join(OUT, 'work')
 SPEC = os.path.join(VERIF, 'spec')
 MC = os.path.join(SPEC, 'mc')
 REPO = os.environ.get('VERIF_REPO', '/repo')
